@@ -27,6 +27,22 @@ def _os_calls(fn_node, names, exclude_self_methods=True):
     return out
 
 
+class _Corroborate:
+    """a view of the report that records discharged obligations and drops failed ones"""
+    def __init__(self, rep):
+        self._rep = rep
+
+    def ob(self, rule, key, ok, *a, **k):
+        if ok:
+            self._rep.ob(rule, key, ok, *a, **k)
+
+    def floor(self, *a, **k):
+        pass
+
+    def __getattr__(self, name):
+        return getattr(self._rep, name)
+
+
 def _precedes(fn, a, b):
     """does statement a come before statement b in the (normalised) body of fn? (line numbers of inlined code are those of the
     helper it came from and say nothing about order)"""
@@ -837,7 +853,9 @@ def run(ctx, rep):
                 # model evaluation (R05.9) alone
                 rep.info("%s.%s: no direct OS %s call in the method body; loop discipline decided by R05.9" % (cq.split(".")[-1], op, op))
                 continue
-            f, g = (check_read if op == "read" else check_write)(ctx, rep, cq)
+            # when the loop was decided correct by evaluation (R05.9), the structural reading of the same loop only corroborates:
+            # its failures (a helper inlined in a shape the pattern does not know) are not reported
+            f, g = (check_read if op == "read" else check_write)(ctx, _Corroborate(rep) if decided.get((cq, op)) else rep, cq)
             check_failure(ctx, rep, cq, f, g, op)
             check_oserror_coverage(ctx, rep, cq, op, names)
         check_close(ctx, rep, cq, fields[cq])
